@@ -253,7 +253,7 @@ def run_case(case):
     sample = {"base": basecell, "sessions": [(G.chain_label(s["chain"]), s["header"], [i["how"] for i in s["items"]]) for s in case["sessions"]], "members": len(model)}
     if viol and any(c["f"] == "PPMD" for s in case["sessions"] for c in s["chain"]):
         for s in case["sessions"]:
-            blob = b"".join(G.materialise(i["content"]) for i in s["items"] if i["how"] in ("writestr", "writef", "write_file"))
+            blob = [G.materialise(i["content"]) for i in s["items"] if i["how"] in ("writestr", "writef", "write_file")]
             if any(c["f"] == "PPMD" for c in s["chain"]) and K.pyppmd_faulty(s["chain"], blob):
                 viol = [{"key": "codec-library/pyppmd-roundtrip", "what": "pyppmd alone cannot round-trip this input (symptom: %s)" % viol[0]["what"][:150]}]
                 break
